@@ -10,11 +10,16 @@ import (
 func init() { register("C06", checkC06) }
 
 // stage tokens of a body path, in source order
-func bodyStages(r *RuleCtx) []string {
+func bodyStages(r *RuleCtx) []string { return bodyStagesD(r, 0) }
+
+// bodyStagesD lists the stage events of a function in source order; a call of another method of the pipeline
+// delivery (an extracted prefix like checkAndRewriteBody) contributes that method's stages at the call's position.
+func bodyStagesD(r *RuleCtx, depth int) []string {
 	info := r.Info
 	type ev struct {
 		pos token.Pos
 		s   string
+		sub []string
 	}
 	var evs []ev
 	argName := func(e ast.Expr) string {
@@ -40,26 +45,46 @@ func bodyStages(r *RuleCtx) []string {
 		}
 		switch {
 		case isCall(info, call, "~/"+pipelineRel+".checkRunner.checkBody"):
-			evs = append(evs, ev{call.Pos(), "checkBody:" + argName(call.Args[1])})
+			evs = append(evs, ev{pos: call.Pos(), s: "checkBody:" + argName(call.Args[1])})
 		case isCall(info, call, "~/"+pipelineRel+".checkRunner.applyResults"):
-			evs = append(evs, ev{call.Pos(), "applyResults"})
+			evs = append(evs, ev{pos: call.Pos(), s: "applyResults"})
 		case isCall(info, call, "~/internal/target.GenerateReceived"):
-			evs = append(evs, ev{call.Pos(), "received"})
+			evs = append(evs, ev{pos: call.Pos(), s: "received"})
 		case methodName(call) == "RewriteBody":
 			rs := exprStr(callRecv(call))
 			switch {
 			case strings.Contains(rs, "globalModifiersState"):
-				evs = append(evs, ev{call.Pos(), "rewriteBody:global"})
+				evs = append(evs, ev{pos: call.Pos(), s: "rewriteBody:global"})
 			case strings.Contains(rs, "sourceModifiersState"):
-				evs = append(evs, ev{call.Pos(), "rewriteBody:source"})
+				evs = append(evs, ev{pos: call.Pos(), s: "rewriteBody:source"})
 			default:
-				evs = append(evs, ev{call.Pos(), "rewriteBody:rcpt-block"})
+				evs = append(evs, ev{pos: call.Pos(), s: "rewriteBody:rcpt-block"})
 			}
+		case depth < 2 && func() bool {
+			fn := callee(info, call)
+			if fn == nil || fn == r.FI.Obj || fn.Name() == "Body" || fn.Name() == "BodyNonAtomic" {
+				return false
+			}
+			sig, _ := fn.Type().(*types.Signature)
+			if sig == nil || sig.Recv() == nil || namedOf(sig.Recv().Type()) == nil || namedOf(sig.Recv().Type()).Obj().Name() != "msgpipelineDelivery" {
+				return false
+			}
+			d := r.C.P.DeclOf(fn)
+			if d == nil || d.Decl.Body == nil {
+				return false
+			}
+			sub := bodyStagesD(r.C.CtxOf(d), depth+1)
+			if len(sub) == 0 {
+				return false
+			}
+			evs = append(evs, ev{pos: call.Pos(), sub: sub})
+			return true
+		}():
 		case (methodName(call) == "Body" || methodName(call) == "BodyNonAtomic") && callRecv(call) != nil:
 			if o := objOf(info, callRecv(call)); o != nil {
 				if _, isVar := o.(*types.Var); isVar {
 					// fan-out to a target delivery (range variable or its partial-delivery alias)
-					evs = append(evs, ev{call.Pos(), "target"})
+					evs = append(evs, ev{pos: call.Pos(), s: "target"})
 				}
 			}
 		}
@@ -74,10 +99,16 @@ func bodyStages(r *RuleCtx) []string {
 	}
 	var out []string
 	for _, e := range evs {
-		if len(out) > 0 && out[len(out)-1] == e.s {
-			continue
+		ss := e.sub
+		if ss == nil {
+			ss = []string{e.s}
 		}
-		out = append(out, e.s)
+		for _, x := range ss {
+			if len(out) > 0 && out[len(out)-1] == x {
+				continue
+			}
+			out = append(out, x)
+		}
 	}
 	return out
 }
@@ -129,7 +160,7 @@ func checkC06(c *Check) {
 	}
 
 	// ---- R2
-	c.Rule("R2", "no verdict is dropped: after an error of checkConnSender / checkRcpt / checkBody / applyResults the function neither reports success nor hands anything to a target", 10)
+	c.Rule("R2", "no verdict is dropped: after an error of checkConnSender / checkRcpt / checkBody / applyResults the function neither reports success nor hands anything to a target", 8)
 	p := c.P
 	pk := p.Pkg(pipelineRel)
 	stagePred := calling("~/"+pipelineRel+".checkRunner.checkConnSender", "~/"+pipelineRel+".checkRunner.checkRcpt", "~/"+pipelineRel+".checkRunner.checkBody", "~/"+pipelineRel+".checkRunner.applyResults")
@@ -235,25 +266,49 @@ func checkC06(c *Check) {
 				}
 				return true
 			})
-			// which verdict guards this Do call? innermost enclosing if
+			// which verdict guards this Do call? Decided on the flow graph of the enclosing (goroutine) closure, whatever
+			// the form of the branching (if-chain, switch, nested ifs): reachable with only Reject set / only Quarantine set
 			guard := ""
+			var encl *ast.FuncLit
 			ast.Inspect(r.FI.Decl.Body, func(x ast.Node) bool {
-				is, ok := x.(*ast.IfStmt)
-				if !ok {
-					return true
-				}
-				if posIn(is.Body, call.Pos()) {
-					cs := exprStr(is.Cond)
-					if strings.HasSuffix(cs, ".Reject") {
-						guard = "reject"
-					} else if strings.HasSuffix(cs, ".Quarantine") {
-						guard = "quarantine"
-					} else if guard == "" {
-						guard = "other:" + cs
-					}
+				if l, ok := x.(*ast.FuncLit); ok && posIn(l.Body, call.Pos()) && l != fl {
+					encl = l // innermost enclosing literal that is not the Do argument itself
 				}
 				return true
 			})
+			var body *ast.BlockStmt = r.FI.Decl.Body
+			if encl != nil {
+				body = encl.Body
+			}
+			gf := c.P.FlowOf(info, body, r.FI.Name()+"$verdicts")
+			if cp, ok := gf.PtOf(call.Pos()); ok {
+				reach := func(rej, quar bool) bool {
+					w := gf.World(func(atom ast.Expr) (bool, bool) {
+						if sx, ok := ast.Unparen(atom).(*ast.SelectorExpr); ok && fieldOf(info, sx) != nil {
+							switch sx.Sel.Name {
+							case "Reject":
+								return rej, true
+							case "Quarantine":
+								return quar, true
+							}
+						}
+						return false, false
+					})
+					_, f := gf.Reach(Query{From: []Pt{gf.Entry()}, Inclusive: true, Target: func(q Pt) bool { return q == cp }, AvoidEdge: w})
+					return f
+				}
+				onR, onQ, onNone := reach(true, false), reach(false, true), reach(false, false)
+				switch {
+				case onR && !onQ && !onNone:
+					guard = "reject"
+				case onQ && !onR && !onNone:
+					guard = "quarantine"
+				default:
+					guard = "other:reachable for reject=" + map[bool]string{true: "y", false: "n"}[onR] + " quarantine=" + map[bool]string{true: "y", false: "n"}[onQ]
+				}
+			} else {
+				guard = "other:not located"
+			}
 			for _, s := range stored {
 				switch guard {
 				case "reject":
@@ -395,21 +450,34 @@ func checkC06(c *Check) {
 	if rb != nil {
 		// the map ranged for blk.checks in Body
 		var reg *types.Var
-		ast.Inspect(rb.FI.Decl.Body, func(n ast.Node) bool {
-			if rs, ok := n.(*ast.RangeStmt); ok {
-				found := false
-				ast.Inspect(rs.Body, func(x ast.Node) bool {
-					if call, ok := x.(*ast.CallExpr); ok && isCall(rb.Info, call, "~/"+pipelineRel+".checkRunner.checkBody") {
-						found = true
+		findReg := func(inf *types.Info, body ast.Node) {
+			ast.Inspect(body, func(n ast.Node) bool {
+				if rs, ok := n.(*ast.RangeStmt); ok {
+					found := false
+					ast.Inspect(rs.Body, func(x ast.Node) bool {
+						if call, ok := x.(*ast.CallExpr); ok && isCall(inf, call, "~/"+pipelineRel+".checkRunner.checkBody") {
+							found = true
+						}
+						return true
+					})
+					if found && fieldOf(inf, rs.X) != nil {
+						reg = fieldOf(inf, rs.X)
 					}
-					return true
-				})
-				if found {
-					reg = fieldOf(rb.Info, rs.X)
+				}
+				return true
+			})
+		}
+		findReg(rb.Info, rb.FI.Decl.Body)
+		if reg == nil {
+			// the recipient-scoped body checks may live in a method Body calls
+			for _, call := range callsIn(rb.FI.Decl.Body) {
+				if fn := callee(rb.Info, call); fn != nil && fn.Pkg() == rb.FI.Obj.Pkg() {
+					if d := p.DeclOf(fn); d != nil && d.Decl.Body != nil {
+						findReg(d.Info(), d.Decl.Body)
+					}
 				}
 			}
-			return true
-		})
+		}
 		msg := ""
 		if reg == nil {
 			msg = "undecided: no registry of recipient blocks found in Body"
